@@ -36,19 +36,28 @@ func judge(got KindSet, want Kind) (bad bool, known bool, why string) {
 	if got == 0 {
 		return false, false, "kind unknown"
 	}
+	// got is a may-set (joins of phis, element-insensitive stores): the value
+	// is certainly of the wrong kind only if no member is compatible; it is
+	// certainly right only if every member is.
+	compatible, others := 0, 0
+	var wrong Kind
 	for k := Kind(1); k < kMax; k++ {
 		if !got.has(k) {
 			continue
 		}
 		if kindCompatible(k, want) {
-			known = true
+			compatible++
 			continue
 		}
-		if confusable[k] != 0 && confusable[k] == confusable[want] {
-			return true, true, fmt.Sprintf("has kind %s where %s is required", kindNames[k], kindNames[want])
+		others++
+		if confusable[k] != 0 && confusable[k] == confusable[want] && wrong == 0 {
+			wrong = k
 		}
 	}
-	return false, known, ""
+	if compatible == 0 && wrong != 0 {
+		return true, true, fmt.Sprintf("has kind %s where %s is required", kindNames[wrong], kindNames[want])
+	}
+	return false, compatible > 0 && others == 0, ""
 }
 
 func judgeLayout(got *AV, want []KindSet) (Status, string) {
